@@ -49,7 +49,7 @@ CONFIGS["C43"] = dict(
     quick=dict(runs=600, per_proc=40, budget_s=240),
     thorough=dict(runs=40000, per_proc=400, budget_s=1500),
     det_seeds=16,
-    rule="histories of 10-34 operations over users {admin,u1,u2} x DSNs {2 restricted, 1 unrestricted} x tables {t1,t2}; row requests in plain / "
+    rule="histories of 10-34 operations over users {admin,u1,u2} x DSNs {3 restricted - one of them named like the unrestricted one plus a dotted suffix -, 1 unrestricted} x tables {t1,t2}; row requests in plain / "
          "abstract / upsert form, one in five as a one-task @transaction script (select, insert, update, delete, sql UPDATE, readrows DELETE..RETURNING; "
          "u1 holds the ego.sql user permission, u2 does not); "
          "non-trivial = >=4 operations; distinct = distinct history hash",
